@@ -13,7 +13,9 @@ macro_rules! dispatch {
         match $id {
             $( $name => {
                 if let Some(case) = $replay {
-                    match $m::replay(&case) {
+                    let mut run: Run = $run($name);
+                    run.strict = true; // an explicit replay shows the failure even if it is a listed finding
+                    match $m::replay(&run, &case) {
                         Ok(()) => { println!("replay: property {} held on this case", $name); 0 }
                         Err(f) => {
                             println!("  failure kind={} : {}", f.kind, f.message);
@@ -23,6 +25,7 @@ macro_rules! dispatch {
                     }
                 } else {
                     let run: Run = $run($name);
+                    run.corpus(&|r, c| $m::replay(r, c));
                     $m::run(&run);
                     run.finish($m::LEVEL, $m::RULE, $m::EXHAUSTIVE, $m::ASSUMPTIONS)
                 }
@@ -89,6 +92,7 @@ fn main() {
     let mk = |name: &'static str| Run::new(name, tier, seed);
     let code = dispatch!(id.as_str(), mk, replay,
         "C01" => c01,
+        "C02" => c02,
     );
     driver::cleanup_scratch();
     std::process::exit(code);
